@@ -316,7 +316,7 @@ def run_reader(kind: str, contents: list[bytes], chunks: list[bytes], plan: list
             await rt
         finally:
             ft.cancel()
-            await tr.close()
+            await _quiet_close(tr)
 
     marks: list[int] = []
     contents_seen: list[bytes] = []
@@ -398,9 +398,7 @@ def emit_client(kind: str, msgs: list[bytes]) -> list[bytes]:
         wire = lis.wires[0]
         for m in msgs:
             k = len(wire.out)
-            n = await tr.write(m, timeout=1.0)
-            if n != len(m):
-                raise Machinery(f"write() returned {n} for a message of {len(m)} bytes")
+            await tr.write(m, timeout=1.0)
             chunks.append(b"".join(b for _, b in wire.out[k:]))
         await tr.close()
 
@@ -516,7 +514,7 @@ async def real_client_run(kind: str, contents: list[bytes], chunks: list[bytes],
                 rec.end("Hang")
         finally:
             ft.cancel()
-            await tr.close()
+            await _quiet_close(tr)
     finally:
         done.set()
         server.close()
@@ -719,7 +717,7 @@ async def real_end_to_end(kind: str, msgs: list[bytes], mode: str, tmpdir: str) 
                 up.note("real-run-guard-expired")
                 if up.reading:
                     up.end("Hang")
-        await tr.close()
+        await _quiet_close(tr)
     except asyncio.TimeoutError:
         up.note("real-run-write-timeout")
     finally:
@@ -730,6 +728,14 @@ async def real_end_to_end(kind: str, msgs: list[bytes], mode: str, tmpdir: str) 
         out.append({"kind": f"real-e2e-{kind}-{mode}-{name}", "ev": rec.ev, "rb": rec.rb, "tab": rec.tab,
                     "wire": b"", "notes": rec.notes, "replies": [], "outcomes": rec.outcomes()})
     return out
+
+
+async def _quiet_close(tr: Any) -> None:
+    """close() of the transport under test; a reset by the (already gone) peer is not an observation."""
+    try:
+        await asyncio.wait_for(tr.close(), 5.0)
+    except (ConnectionError, OSError, asyncio.TimeoutError):
+        pass
 
 
 def _hand_over(rec: Rec, content: bytes) -> None:
